@@ -3,7 +3,7 @@ import collections, json, os
 import vp
 import tracecheck
 
-ALL_TXS = '{"t1", "t2", "t3", "t4", "t5", "t6", "t7", "p1", "p2", "p3", "p4", "p5", "p6", "p7", "p8", "p9", "p10", "w1"}'
+ALL_TXS = '{"t1", "t2", "t3", "t4", "t5", "t6", "t7", "p1", "p2", "p3", "p4", "p5", "p6", "p7", "p8", "p9", "p10", "w1", "b1", "b2", "b3", "s4"}'
 
 KF_DESC = {
     "KF_PoolMasksBlockOrder": "PlayAndRepost validates a peer block against the state that still contains the node's own "
@@ -28,7 +28,7 @@ def gen(run, plans, cfg="Gen_XState.cfg", module="Gen_XState.tla"):
     groups = []
     for k, p in enumerate(plans):
         consts = {"MaxOps": p["ops"], "MaxBlocks": p.get("maxb", 7), "MaxTxPerBlock": p.get("mtx", 2),
-                  "Window": p.get("window", 0), "ActiveTxs": p.get("txs", ALL_TXS)}
+                  "Window": p.get("window", 0), "ActiveTxs": p.get("txs", ALL_TXS), "BlockBudget": p.get("budget", 1000)}
         consts.update(p.get("consts", {}))
         behs = run.tlc_gen(module, cfg, p["num"], p["ops"] + 2, name="gen%d" % k, seed=run.seed * 1000 + k, consts=consts)
         groups.append((p, behs, os.path.join(run.work, "gen%d" % k, "catalog.json")))
@@ -54,7 +54,7 @@ def replay_validate(run, groups, extra_driver_args=(), trace_cfg="Trace_XState.c
     total = 0
     for p, behs, cat in groups:
         args = ["-catalog", cat, "-window", str(p.get("window", 0))] + list(p.get("driver_args", [])) + list(extra_driver_args)
-        consts = {"Window": p.get("window", 0)}
+        consts = {"Window": p.get("window", 0), "BlockBudget": p.get("budget", 1000)}
         total += tracecheck.replay_and_validate(run, behs, driver="xstate-replay", driver_args=args,
                                                 trace_module="Trace_XState.tla", trace_cfg=trace_cfg, consts=consts,
                                                 kf_consts=kf_consts or None, kf_desc={k: known.get(k) for k in kf_consts},
